@@ -105,28 +105,6 @@ Proof.
   - eapply list_eqb_eq; [|eassumption]. apply tname_eqb_eq.
 Qed.
 
-(* hashes of the normalised ASTs of the functions of /repo that Model/Pedantic.v and Model/GenWrapper.v model by hand
-   (translator/t_pedantic.py emits the current ones as Gen.Pedantic.locks) *)
-Definition model_locks : list (string * string) := [
-  ("DecoratedFunction.__init__"%string, "aacbd5f3fcc189b7"%string);
-  ("FunctionCall.__init__"%string, "209537a8ae4d10d6"%string);
-  ("FunctionCall._assert_param_has_type_annotation"%string, "29f55071ca491e20"%string);
-  ("FunctionCall._check_type_param"%string, "d27204050205f965"%string);
-  ("FunctionCall._check_types_args"%string, "aa5d62c056936811"%string);
-  ("FunctionCall._check_types_kwargs"%string, "de44555714cc3665"%string);
-  ("FunctionCall._check_types_return"%string, "83cad4de9b218419"%string);
-  ("FunctionCall.clazz"%string, "6525d2800becbe5d"%string);
-  ("FunctionCall.type_vars"%string, "327c368232583e2b"%string);
-  ("GeneratorWrapper.__getattr__"%string, "76b02215b7d3072b"%string);
-  ("GeneratorWrapper.__init__"%string, "e6983519b0a5d3f0"%string);
-  ("GeneratorWrapper.__iter__"%string, "eb0d8e3772989538"%string);
-  ("GeneratorWrapper.__next__"%string, "f5819cacf75accaa"%string);
-  ("GeneratorWrapper._set_and_check_return_types"%string, "bce168d55a768de3"%string);
-  ("GeneratorWrapper.close"%string, "0122c45a3f3632cc"%string);
-  ("GeneratorWrapper.send"%string, "93b57e39dbb9a943"%string);
-  ("GeneratorWrapper.throw"%string, "4e30b1e7f2e86b8e"%string)
-].
-
 Section Straight.
   Variable pc : pedantic_cfg.
   Variable check : ann -> value -> tvenv -> outcome unit * tvenv.
